@@ -19,6 +19,7 @@ deriving Repr, Inhabited
 inductive SAct
   | direct (a : SAct)       -- the `World`-level form of a sender, called in-line by an exclusive system (`world.flush()` first)
   | flush                   -- `world.flush()` in the middle of an exclusive body
+  | runNow (s : Ref)        -- `SystemCommand::apply(world)` called in-line by an exclusive body, no flush first
   | spawn
   | spawnSys (d : Nat)
   | on (mode : Mode) (d : Nat) (trigs : List STrig)
@@ -115,6 +116,7 @@ def parseAct (toks : List String) : Option SAct :=
   | ["revoke", t] => (parseIdx 't' t).map .revoke
   | ["run", s] => (parseRef s).map .run
   | ["flush"] => some .flush
+  | ["irun", s] => (parseRef s).map .runNow
   | ["drun", s] => (parseRef s).map (fun r => .direct (.run r))
   | ["dsysevent", s, ty, pid] => do pure (.direct (.sysEvent (← parseRef s) (← ty.toNat?) (← pid.toNat?)))
   | ["dbroadcast", ty, pid] => do pure (.direct (.broadcast (← ty.toNat?) (← pid.toNat?)))
@@ -252,6 +254,7 @@ def resolveTrigs (s : St) (ts : List STrig) : Option (List Trig) := ts.mapM (res
 def resolveAct (sc : Scenario) (s : St) : SAct → Option Act
   | .direct a => resolveAct sc s a
   | .flush => some .flushWorld
+  | .runNow r => (resolveRef s r).map Act.runNow
   | .spawn => some .spawn
   | .spawnSys d => (sc.defs[d]?).map (fun df => Act.spawnSys d df.excl)
   | .on m d ts => do pure (Act.on m d (← sc.defs[d]?).excl (← resolveTrigs s ts))
